@@ -15,4 +15,5 @@ CONSTANTS
   Start0 = 100
   Limits = {0, 2}
   MaxAttempts = 3
+  OffsetNames = {"end-1", "end", "end+max"}
 INVARIANTS Emit
